@@ -110,6 +110,10 @@ func ruleMainToShadow(c *Check, rLoop, rPair, rFlags string) {
 		p := &paths[i]
 		elem, private, f := mirrorElem(c, p)
 		if !f {
+			if len(callsOf(p, fnIterUpd))+len(callsOf(p, fnReadDBI)) > 0 {
+				bad++
+				c.Bad(rLoop, fnMainToSh+"/listing-fresh", "a DBI is processed on a path whose DBI names do not come from lmdbenv.ReadDBINames on this transaction in this call (e.g. a listing cached from earlier): DBIs created meanwhile in the same transaction are passed over", c.pathPos(p), describe(c, p))
+			}
 			continue
 		}
 		nIter++
@@ -225,6 +229,10 @@ func ruleShadowToMain(c *Check, rLoop, rPair string) {
 		p := &paths[i]
 		elem, private, f := mirrorElem(c, p)
 		if !f {
+			if len(callsOf(p, fnIterUpd, fnEmptyPut))+len(callsOf(p, fnReadDBI)) > 0 {
+				bad++
+				c.Bad(rLoop, fnShToMain+"/listing-fresh", "a DBI is processed on a path whose DBI names do not come from lmdbenv.ReadDBINames on this transaction in this call (e.g. a listing cached from earlier): DBIs created meanwhile in the same transaction are passed over", c.pathPos(p), describe(c, p))
+			}
 			continue
 		}
 		nIter++
